@@ -227,12 +227,16 @@ func (c *Conn) clientHandshake(ctx context.Context) (err error) {
 				return readErr
 			}
 
+			// resend：收到 HelloVerifyRequest 后应立即离开读循环重发 ClientHello
+			// （switch 内的 break 只跳出 switch，不会跳出读循环）
+			resend := false
 			switch m := msg.(type) {
 			case *helloVerifyRequestMsg:
 				// 检查是否已设置 cookie（对端重传检测）
 				if len(hello.cookie) > 0 {
 					// 对端重传了 HelloVerifyRequest，我们重传 ClientHello
 					c.hsState.Store(int32(stateSending))
+					resend = true
 					break
 				}
 
@@ -241,7 +245,7 @@ func (c *Conn) clientHandshake(ctx context.Context) (err error) {
 				hello.raw = nil // 强制重新 marshaling
 				c.handBuf.Reset()
 				c.hsState.Store(int32(stateSending))
-				break
+				resend = true
 
 			case *serverHelloMsg:
 				// Cookie 交换完成
@@ -255,7 +259,7 @@ func (c *Conn) clientHandshake(ctx context.Context) (err error) {
 				return unexpectedMessageError(serverHello, msg)
 			}
 
-			if serverHello != nil {
+			if serverHello != nil || resend {
 				break
 			}
 		}
